@@ -179,6 +179,7 @@ class VK:
         self.on_access = None    # optional hook(vk, idx, kind, path)
         self.rdev = {}           # path -> st_rdev reported for a redirected path (fake device nodes)
         self.count_only = None   # optional predicate(kind, path): only those accesses get an index
+        self.list_order = None   # optional callable(path, names) -> names: the order a directory listing comes back in
         self.hook_reads = False  # redirected (real) files announce their first read as a "read" access
 
     # -- wiring ---------------------------------------------------------------------------
@@ -282,6 +283,8 @@ def _v_listdir(path="."):
                 vk.access("listdir", p)
                 if r[0] == "r":
                     out = _real["listdir"](r[1])
+                    if vk.list_order is not None:
+                        out = vk.list_order(p, out)
                     return [os.fsencode(x) for x in out] if isb else out
                 n = vk.node(r[1], r[2], p)
                 if isinstance(n, L):
@@ -291,6 +294,8 @@ def _v_listdir(path="."):
                 if n.list_err is not None:
                     raise n.list_err
                 names = n.names() if callable(n.names) else list(n.names)
+                if vk.list_order is not None:
+                    names = vk.list_order(p, list(names))
                 return [os.fsencode(x) for x in names] if isb else list(names)
     return _real["listdir"](path)
 
